@@ -58,7 +58,10 @@ func vxEnvInt(name string, def int) int {
 
 // vxC04 is the C04/C05 harness body for a bound (maxN, alphabet).
 func vxC04(maxN, alpha int) {
-	in := vxInput(maxN, alpha)
+	vxC04On(vxInput(maxN, alpha))
+}
+
+func vxC04On(in []byte) {
 	tk, _ := New()
 	toks, err := tk.Tokenize(in)
 	vx.Notef("in=%q err=%v", in, err != nil)
@@ -202,3 +205,33 @@ func VxC04_Pos6() { vxC04(6, 2) }
 func VxC04_Cmt6() { vxC04(6, 3) }
 func VxC04_Cmt7() { vxC04(7, 3) }
 func VxC04_Cmt8() { vxC04(8, 3) }
+
+// ---- word slots: multi-word (compound) keywords are longer than any byte-level bound, so the
+// words are concrete rows and only the separators between them are symbolic bytes
+
+var vxWords1 = []string{"GROUP", "order", "Left", "RIGHT", "inner", "OUTER", "cross", "NATURAL", "full", "GROUPING", "a", "SELECT", "LEFTY"}
+var vxWords2 = []string{"BY", "by", "JOIN", "join", "SETS", "OUTER", "x", "BYE", "1", ""}
+var vxWords3 = []string{"", "JOIN", "b"}
+var vxSepAlphabet = []int{' ', '\n', '-', ','}
+
+func vxSep(maxN int) []byte {
+	n := vx.Choice(maxN + 1)
+	b := make([]byte, n)
+	for k := range b {
+		b[k] = byte(vx.PickInt(vx.Small(len(vxSepAlphabet)), vxSepAlphabet))
+	}
+	return b
+}
+
+func vxC04Words(maxSep int) {
+	var in []byte
+	in = append(in, vxWords1[vx.Choice(len(vxWords1))]...)
+	in = append(in, vxSep(maxSep)...)
+	in = append(in, vxWords2[vx.Choice(len(vxWords2))]...)
+	in = append(in, vxSep(1)...)
+	in = append(in, vxWords3[vx.Choice(len(vxWords3))]...)
+	vxC04On(in)
+}
+
+func VxC04_Words2() { vxC04Words(2) }
+func VxC04_Words3() { vxC04Words(3) }
